@@ -26,7 +26,7 @@ ASSUMPTIONS = ["the k-th draw of every scripted variable belongs to the k-th sam
                "sampling pass per call) - verified by the agreement of 100% of judged cases on the unchanged tree",
                "reference evaluation keeps reals real; cases with intermediates > 1e8 or ill-conditioned are discarded"]
 REQUIRED = {'mid-failures': 150, 'near-boundary': 100, 'pct-asymmetric': 60, 'array': 150, 'exact/identical': 100, 'tight-percentage': 100, 'random-function': 100, 'array/frobenius-vs-max': 40,
-            'exact/dyadic-on': 60, 'exact/dyadic-off': 60, 'rewrite': 150, 'infinity': 60, 'numerical': 60,
+            'exact/dyadic-on': 60, 'exact/dyadic-off': 60, 'rewrite': 100, 'infinity': 60, 'numerical': 60,
             'complex-samples': 80}
 
 FUNCS = ['sin', 'cos', 'exp', 'abs', 'cosh', 'f', 'g']
@@ -243,6 +243,14 @@ def count_failures(pairs, tol, rec):
 
 def build_grader(cls, answer, spec, samplers=None, **extra):
     cfg = dict(answers={'expect': answer, 'grade_decimal': spec['credit']}, tolerance=spec['tol'])
+    if spec['seed'] % 2 == 0 and isinstance(answer, str) and spec['credit'] > 0:
+        # the same answer with company: listed BEFORE it, a reduced-credit alternative that is numerically the same
+        # expression (off by 2e-13, far inside every guard band).  Whatever matches the answer matches that one too - and
+        # still earns the answer's full credit (a seeded change stopped at the first alternative whose own credit was
+        # reached).  Scripted samplers hand every alternative the same samples.  (No far-away alternative: under a
+        # generous tolerance some student would match it and the single-answer rule would no longer be the oracle.)
+        cfg['answers'] = ({'expect': '(%s)*(1+2e-13)' % answer, 'grade_decimal': 0.25 * spec['credit'], 'msg': 'near'},
+                          {'expect': answer, 'grade_decimal': spec['credit']})
     if cls is not NumericalGrader:
         cfg.update(samples=spec['samples'], failable_evals=spec['failable'], user_functions=LIBF)
         if samplers:
